@@ -7,7 +7,8 @@
 For each seeded/<id>/patch.diff: `git -C /repo apply`, pinned tests (must still pass), the demo
 (must fail), the listed checks (default: meta.json "expected_checks", else the property's own
 check), then `git -C /repo checkout -- .` whatever happened.  Prints one line per check and
-stores the outcome in seeded/<id>/last_run.json (not meta.json, which is hand-written).
+stores the outcome in seeded/<id>/last_run.json (VERIF_SEED=1, the default) or last_run_seed<N>.json (not in meta.json,
+which is hand-written).
 """
 import json
 import os
@@ -66,7 +67,9 @@ def run_seed(sid, checks=None, tier="quick"):
                 path = os.path.join(REPO, line[3:].strip())
                 if os.path.isfile(path) and "/apischema/" in path:
                     os.remove(path)
-    json.dump(result, open(os.path.join(d, "last_run.json"), "w"), indent=1)
+    vseed = os.environ.get("VERIF_SEED", "1")
+    result["verif_seed"] = int(vseed)
+    json.dump(result, open(os.path.join(d, "last_run.json" if vseed == "1" else f"last_run_seed{vseed}.json"), "w"), indent=1)
     caught = any(v["exit"] == 1 for v in result["checks"].values())
     print(f"{sid}: {'CAUGHT' if caught else 'MISSED'}")
     return 0 if caught else 1
